@@ -367,4 +367,112 @@ theorem redactNamespace_eq (g : Globals) (T : Tables) (cmd : List (Str × J)) (h
       | _ => simp [Ctx.nsFieldVal, hm2, h1, arrF, Ctx.nsDocOf]
     · simp [h1, h2]
 
+theorem redactOperation_eq_map (c : Ctx) (cmd : List (Str × J)) :
+    c.redactOperation cmd = cmd.map (fun p => (p.1, c.cmdVal (lookup sInsert cmd).isSome p.1 p.2)) := rfl
+
+theorem keysOf_redactOperation (c : Ctx) (cmd : List (Str × J)) : keysOf (c.redactOperation cmd) = keysOf cmd := by
+  rw [redactOperation_eq_map]; unfold keysOf; rw [List.map_map]; rfl
+
+theorem depth_obj_lt (m : List (Str × J)) (cmd : List (Str × J)) (k : Str) (h : lookup k cmd = some (.obj m)) : depthKVs m < depthKVs cmd := by
+  have := depth_lookup cmd k _ h
+  rw [depth] at this; omega
+
+/-- **`redactCommand` is the model's `redactCommand`**: the operation itself, the operation wrapped by `explain`, the operations
+    listed by `bulkWrite` under `ops` - for every command document without duplicate keys at any level -/
+theorem redactCommand_eq (g : Globals) (T : Tables) (env : Env g T) (fuel : Nat) (e : Bool) (cmd : List (Str × J))
+    (hnd : (J.obj cmd).nodup = true) (hall : 2 * depthKVs cmd < fuel) :
+    redactCommand g T fuel cmd e = some ((Ctx.mk T (absCfg g) e).redactCommand cmd) := by
+  have hk := nodup_obj_keys cmd hnd
+  have e1 : redactCommand_s1 g T fuel cmd e = some cmd := rfl
+  have e2 : redactCommand_s2 g T fuel cmd e = some ((Ctx.mk T (absCfg g) e).redactOperation cmd) := by
+    unfold redactCommand_s2
+    simp only [redactOperation_eq g T env fuel e cmd hk hall, bind, Option.bind, pure]
+  -- values of keys that redactOperation does not dispatch on are those of the original document
+  have hlk : ∀ (K : Str), (Ctx.mk T (absCfg g) e).cmdVal (lookup sInsert cmd).isSome K = id →
+      lookup K ((Ctx.mk T (absCfg g) e).redactOperation cmd) = lookup K cmd := by
+    intro K hK
+    rw [redactOperation_eq_map, lookup_map_snd (fun k w => (Ctx.mk T (absCfg g) e).cmdVal (lookup sInsert cmd).isSome k w) K cmd, hK]
+    cases lookup K cmd <;> rfl
+  have hid1 : (Ctx.mk T (absCfg g) e).cmdVal (lookup sInsert cmd).isSome s_explain = id := by
+    funext v; cases (lookup sInsert cmd).isSome <;> rfl
+  have hid2 : (Ctx.mk T (absCfg g) e).cmdVal (lookup sInsert cmd).isSome s_ops = id := by
+    funext v; cases (lookup sInsert cmd).isSome <;> rfl
+  have hk1 : nodupKeys (keysOf ((Ctx.mk T (absCfg g) e).redactOperation cmd)) = true := by rw [keysOf_redactOperation]; exact hk
+  have e3 := blkInner (fun m => redactOperation g T fuel m e) ((Ctx.mk T (absCfg g) e).redactOperation) s_explain _ hk1 (by
+    intro m hm
+    rw [hlk s_explain hid1] at hm
+    have hmn := nodup_lookup cmd hnd _ _ hm
+    have := depth_obj_lt m cmd _ hm
+    exact redactOperation_eq g T env fuel e m (nodup_obj_keys m hmn) (by omega))
+  have hk2 : nodupKeys (keysOf (updAt s_explain (objF (Ctx.mk T (absCfg g) e).redactOperation) ((Ctx.mk T (absCfg g) e).redactOperation cmd))) = true := by
+    rw [keysOf_updAt]; exact hk1
+  have e4 := blkLoopG (fun m => redactOperation g T fuel m e) ((Ctx.mk T (absCfg g) e).redactOperation) s_bulkWrite s_ops _ hk2 (by
+    intro xs hxs m hm
+    rw [lookup_updAt, if_neg (by decide), hlk s_ops hid2] at hxs
+    have hx := nodup_lookup cmd hnd _ _ hxs
+    rw [J.nodup] at hx
+    have hmn := nodupList_mem xs _ hx hm
+    have hd1 := depth_lookup cmd _ _ hxs
+    rw [depth] at hd1
+    have hd2 := depth_mem_list xs _ hm
+    rw [depth] at hd2
+    exact redactOperation_eq g T env fuel e m (nodup_obj_keys m hmn) (by omega))
+  unfold redactCommand
+  simp only [bind, Option.bind, pure, e1, e2]
+  rw [show redactCommand_s3 g T fuel _ e = _ from e3]; simp only []
+  rw [show redactCommand_s4 g T fuel _ e = _ from e4]
+  -- the three updates as one key-wise map
+  have hb : (lookup s_bulkWrite (updAt s_explain (objF (Ctx.mk T (absCfg g) e).redactOperation) ((Ctx.mk T (absCfg g) e).redactOperation cmd))).isSome =
+      (lookup sBulkWrite cmd).isSome := by
+    rw [lookup_updAt, if_neg (by decide), redactOperation_eq_map,
+      lookup_map_snd (fun k w => (Ctx.mk T (absCfg g) e).cmdVal (lookup sInsert cmd).isSome k w) s_bulkWrite cmd]
+    have : sBulkWrite = s_bulkWrite := rfl
+    rw [this]; cases lookup s_bulkWrite cmd <;> rfl
+  rw [hb, updAt_if]
+  unfold Ctx.redactCommand updAt
+  rw [redactOperation_eq_map, List.map_map, List.map_map]
+  congr 1
+  apply List.map_congr_left
+  intro p hp
+  obtain ⟨k, v⟩ := p
+  have hv : v.nodup = true := by
+    have := hnd; rw [J.nodup, Bool.and_eq_true] at this
+    exact nodupKVs_mem cmd (k, v) this.2 hp
+  have fp : ∀ (op : List (Str × J)), (J.obj op).nodup = true →
+      fromPairs ((Ctx.mk T (absCfg g) e).redactOperation op) = (Ctx.mk T (absCfg g) e).redactOperation op := by
+    intro op hop
+    exact fromPairs_of_nodup _ (by rw [keysOf_redactOperation]; exact nodup_obj_keys op hop)
+  have se : sExplain = s_explain := rfl
+  have so : sOps = s_ops := rfl
+  simp only [Function.comp, Ctx.cmdEntry, se, so]
+  by_cases h1 : k = s_explain
+  · subst h1
+    have hne : ¬ (s_explain = s_ops) := by decide
+    have hcv : (Ctx.mk T (absCfg g) e).cmdVal (lookup sInsert cmd).isSome s_explain v = v := by rw [hid1]; rfl
+    simp only [hcv, if_true, hne, and_false, if_false]
+    cases v with
+    | obj op => simp only [objF, Ctx.opDoc]; rw [fp op hv]
+    | _ => rfl
+  · by_cases h2 : k = s_ops
+    · subst h2
+      have hcv : (Ctx.mk T (absCfg g) e).cmdVal (lookup sInsert cmd).isSome s_ops v = v := by rw [hid2]; rfl
+      simp only [hcv, h1, if_false, if_true]
+      cases hbk : (lookup sBulkWrite cmd).isSome
+      · simp
+      · simp only [and_true, if_true, Bool.and_true]
+        cases v with
+        | arr xs =>
+          simp only [arrF, decide_true, if_true]
+          congr 1
+          refine congrArg J.arr ?_
+          apply List.map_congr_left
+          intro x hx
+          rw [J.nodup] at hv
+          have hxn := nodupList_mem xs x hv hx
+          cases x with
+          | obj op => simp only [objF, Ctx.opDoc]; rw [fp op hxn]
+          | _ => rfl
+        | _ => rfl
+    · simp [h1, h2]
+
 end Anonymongo.Src
